@@ -439,6 +439,9 @@ func (index *PatternIndex) searchPairs(ctx *Context, pairs []piPair) (StringSet,
 	case Map, map[string]interface{}:
 		mi := ki.Map
 		if mi != nil {
+			// A pattern that ends with an empty map (or an
+			// empty array inside this map) lives right here.
+			ids.AddAll(mi.Ids)
 			var mp map[string]interface{}
 			switch v.(type) {
 			case Map:
@@ -501,7 +504,14 @@ func (index *PatternIndex) searchPairs(ctx *Context, pairs []piPair) (StringSet,
 
 // SearchPatternsMap searchs the index for patterns that match the given fact (or event).
 func (index *PatternIndex) SearchPatternsMap(ctx *Context, fact map[string]interface{}) (StringSet, error) {
-	return index.searchPairs(ctx, mapToPairs(ctx, fact))
+	ids, err := index.searchPairs(ctx, mapToPairs(ctx, fact))
+	if err == nil && index.Ids != nil {
+		// The empty pattern (and a pattern that ends with an
+		// empty array at the top level) is indexed at the root
+		// and matches everything.
+		ids.AddAll(index.Ids)
+	}
+	return ids, err
 }
 
 // AddPatternJSON adds the given pattern (as a map) to the index.
